@@ -502,6 +502,11 @@ func runUpload(id int, sc scenario, variant int, base string) (res result) {
 		// the caller's context is cancelled and its source stops with the context's error (a cancellation that races
 		// with the final half-close of an upload whose bytes were all sent cannot be decided by anybody: two generals)
 		r.onHit = func() error { cancel(); return context.Canceled }
+		if !external_ && (variant/5)%2 == 0 {
+			// through the inline client the source may also go on after the cancellation (nothing there reads the context
+			// while it copies): whatever the call then answers, the key and the reopened database must agree with it
+			r.onHit = func() error { cancel(); return nil }
+		}
 	case "cut":
 		r.onHit = func() error { px.cut(); return nil }
 	case "reject_emptykey", "reject_nospace":
